@@ -316,6 +316,29 @@ impl Property for C06 {
                 cases.push(tok_case(&w, Some(word_reference(&w)), "word"));
             }
         }
+        // long numerals: many digits before / after the dot, long exponents, leading zeros
+        let n_long = if tier == Tier::Quick { 3000 } else { 100_000 };
+        for _ in 0..n_long {
+            let mut w = String::new();
+            let cap = if rng.chance(1, 4) { 400 } else { 30 };
+            let nd = 1 + rng.below(cap);
+            for _ in 0..nd {
+                w.push((b'0' + rng.below(10) as u8) as char);
+            }
+            if rng.chance(1, 2) {
+                w.push('.');
+                for _ in 0..rng.below(40) {
+                    w.push((b'0' + rng.below(10) as u8) as char);
+                }
+            }
+            if rng.chance(1, 2) {
+                w.push(if rng.chance(1, 2) { 'e' } else { 'E' });
+                for _ in 0..1 + rng.below(4) {
+                    w.push((b'0' + rng.below(10) as u8) as char);
+                }
+            }
+            cases.push(tok_case(&w, Some(word_reference(&w)), "word-long-numeral"));
+        }
         for w in ["true", "false", "True", "inf", "nan", "NaN", "infinity", "Infinity", "0x", "0xg", "0x8000000000000000", "9223372036854775808", "1e400", "0x7fffffffffffffff", "1_000", "é", "truee"] {
             cases.push(tok_case(w, Some(word_reference(w)), "word-named"));
         }
